@@ -769,6 +769,9 @@ def corpus():
     C = gram.ClassSpec
     r02 = ("ann", "int", ("intRange", 0, 2))
     return [
+        # two CONCRETE classes that mention each other in their fields (through a union and a list, so that programs are finite)
+        gram.Spec([C("A0", True, None), C("Leaf", False, 0, [("k", r02)]),
+                   C("Ping", False, 0, [("p", ("union", ("cls", 3), ("cls", 1)))]), C("Pong", False, 0, [("q", ("list", ("cls", 2))), ("k", r02)])], 0, [1, 2, 3]),
         gram.Spec([C("A0", True, None), C("Leaf", False, 0, [("k", r02)]),
                    C("Grid", False, 0, [("cells", ("ann", ("list", ("list", r02)), ("listSize", 1, 2)))]),
                    C("Bag", False, 0, [("xs", ("ann", ("list", r02), ("listSize", 1, 3))), ("n", ("ann", ("list", ("ann", "str", ("varRange", ["x", "y"]))), ("listSize", 0, 2)))]),
